@@ -50,6 +50,34 @@ func c11r6(c *core.Ctx) {
 			})
 			return true
 		})
+		// ... or handed out by a helper that collects the keys of the map it is given
+		// (a function from a map to a slice of its key type: sortedKeys(cfg.denylist))
+		keysOfField := func(e ast.Expr) *types.Var {
+			ce, ok := ast.Unparen(e).(*ast.CallExpr)
+			if !ok || len(ce.Args) != 1 {
+				return nil
+			}
+			f := fieldOf(info, ce.Args[0])
+			if f == nil || !core.RecvNamedOfField(cfgT, f) {
+				return nil
+			}
+			mt, isMap := f.Type().Underlying().(*types.Map)
+			st, isSlice := info.TypeOf(ce).Underlying().(*types.Slice)
+			if !isMap || !isSlice || !types.Identical(mt.Key(), st.Elem()) {
+				return nil
+			}
+			return f
+		}
+		ast.Inspect(fd.Body, func(nd ast.Node) bool {
+			if as, ok := nd.(*ast.AssignStmt); ok && len(as.Lhs) == 1 && len(as.Rhs) == 1 {
+				if id, ok := as.Lhs[0].(*ast.Ident); ok {
+					if f := keysOfField(as.Rhs[0]); f != nil {
+						keySlices[objOfIdent(info, id)] = f
+					}
+				}
+			}
+			return true
+		})
 		ast.Inspect(fd.Body, func(nd ast.Node) bool {
 			rs, ok := nd.(*ast.RangeStmt)
 			if !ok {
@@ -59,6 +87,9 @@ func c11r6(c *core.Ctx) {
 			if f == nil {
 				if id, ok := ast.Unparen(rs.X).(*ast.Ident); ok {
 					f = keySlices[objOfIdent(info, id)]
+				}
+				if f == nil {
+					f = keysOfField(rs.X)
 				}
 			} else if _, collects := func() (struct{}, bool) {
 				// the key-collecting loop itself only appends: nothing to judge
